@@ -19,7 +19,16 @@ type Term struct {
 	sent bool // definition already sent to solver
 }
 
-var termTab = map[string]*Term{}
+type termKey struct {
+	op         string
+	w          int
+	val        uint64
+	name       string
+	p1, p2     int
+	a0, a1, a2 int
+}
+
+var termTab = map[termKey]*Term{}
 var termSeq int
 
 func mask(w int) uint64 {
@@ -30,12 +39,20 @@ func mask(w int) uint64 {
 }
 
 func intern(t *Term) *Term {
-	var sb strings.Builder
-	fmt.Fprintf(&sb, "%s/%d/%d/%s/%d/%d", t.Op, t.W, t.Val, t.Name, t.P1, t.P2)
-	for _, a := range t.Args {
-		fmt.Fprintf(&sb, ",%d", a.id)
+	k := termKey{op: t.Op, w: t.W, val: t.Val, name: t.Name, p1: t.P1, p2: t.P2}
+	switch len(t.Args) {
+	case 3:
+		k.a2 = t.Args[2].id
+		fallthrough
+	case 2:
+		k.a1 = t.Args[1].id
+		fallthrough
+	case 1:
+		k.a0 = t.Args[0].id
+	case 0:
+	default:
+		panic("intern: too many args")
 	}
-	k := sb.String()
 	if o, ok := termTab[k]; ok {
 		return o
 	}
@@ -45,10 +62,32 @@ func intern(t *Term) *Term {
 	return t
 }
 
+// resetTerms forgets every interned term (ids keep growing, so terms of
+// different generations never clash in the solver).
+func resetTerms() {
+	termTab = make(map[termKey]*Term, 1<<15)
+	constCache = [65][256]*Term{}
+	intern(True)
+	intern(False)
+}
+
 func (t *Term) IsConst() bool { return t.Op == "const" }
 func (t *Term) IsBool() bool  { return t.W == 0 }
 
-func BV(w int, v uint64) *Term { return intern(&Term{Op: "const", W: w, Val: v & mask(w)}) }
+var constCache [65][256]*Term
+
+func BV(w int, v uint64) *Term {
+	v &= mask(w)
+	if v < 256 {
+		if c := constCache[w][v]; c != nil {
+			return c
+		}
+		c := intern(&Term{Op: "const", W: w, Val: v})
+		constCache[w][v] = c
+		return c
+	}
+	return intern(&Term{Op: "const", W: w, Val: v})
+}
 func Bool(b bool) *Term {
 	if b {
 		return intern(&Term{Op: "const", W: 0, Val: 1})
